@@ -508,6 +508,64 @@ func c06Pool(c *an.Ctx) {
 
 	// ---- R5 derived objects do not grow into their parent's spare capacity.
 	c06DerivedAppends(c)
+
+	// ---- R2 (cont.) a lock protects only if every user locks the same object: the mutex is never part of a
+	// value that is copied per call (a struct received by value — value receiver or by-value parameter — holds
+	// its own copy of an embedded sync.Mutex / sync.RWMutex, so Lock() excludes nobody)
+	nLk := 0
+	seenLk := map[string]int{}
+	for _, fn := range c.P.ModFuncs {
+		rp := relPkg(fn)
+		if strings.HasPrefix(rp, "testing") || strings.HasPrefix(rp, "examples") {
+			continue
+		}
+		an.Instrs(fn, func(in ssa.Instruction) {
+			cc := an.CallOf(in)
+			if cc == nil || cc.StaticCallee() == nil || cc.StaticCallee().Signature.Recv() == nil || len(cc.Args) == 0 {
+				return
+			}
+			rt := cc.StaticCallee().Signature.Recv().Type().String()
+			if rt != "*sync.Mutex" && rt != "*sync.RWMutex" {
+				return
+			}
+			switch cc.StaticCallee().Name() {
+			case "Lock", "RLock", "TryLock", "TryRLock":
+			default:
+				return
+			}
+			nLk++
+			// walk the address down to its base
+			base := cc.Args[0]
+			copied := false
+			for d := 0; d < 6; d++ {
+				switch x := base.(type) {
+				case *ssa.FieldAddr:
+					base = x.X
+					continue
+				case *ssa.IndexAddr:
+					base = x.X
+					continue
+				case *ssa.Alloc:
+					for _, r := range *x.Referrers() {
+						if st, ok := r.(*ssa.Store); ok && st.Addr == ssa.Value(x) {
+							if _, isP := st.Val.(*ssa.Parameter); isP {
+								copied = true
+							}
+						}
+					}
+				}
+				break
+			}
+			k := fmt.Sprintf("%s on a shared mutex in %s", cc.StaticCallee().Name(), an.RelName(fn))
+			seenLk[k]++
+			key := k
+			if seenLk[k] > 1 {
+				key += fmt.Sprintf("#%d", seenLk[k])
+			}
+			c.Check(!copied, "R2", key, in.Pos(), "the mutex is reached through a pointer or a package variable", "the mutex locked here lives inside a value the function received by value (a copy made for this call): every caller locks its own copy, so the critical section excludes nobody and the data it was meant to protect is written concurrently")
+		})
+	}
+	c.MinCount("R2", "lock acquisitions in the module", nLk, 4)
 }
 
 // c06DerivedAppends: `append(x.f, ...)` whose result goes anywhere but back into x.f builds a *new* object
@@ -641,4 +699,3 @@ func c06DerivedAppends(c *an.Ctx) {
 }
 
 var c06DerivedAllow = map[string]string{}
-
